@@ -43,7 +43,7 @@ static int _01inverse(vorbis_block *vb, vorbis_look_residue *vl, float **in, int
   __CPROVER_assigns(g_part_calls, g_class_calls, __CPROVER_alloca_object)
   __CPROVER_ensures(RV == 0)
 #ifdef VERIF_ENFORCE__01inverse
-  REACH_ENSURES(g_part_calls >= 3)
+  REACH_ENSURES(g_part_calls >= 2)
   REACH_ENSURES(g_part_calls == 0 && g_class_calls == 1)
   REACH_ENSURES(g_class_calls == 0)
 #endif
@@ -55,9 +55,9 @@ int res2_inverse(vorbis_block *vb, vorbis_look_residue *vl, float **in, int *non
   /* 8.6.2: a bundle whose vectors are all 'do not decode' reads nothing */
   __CPROVER_ensures(((ch < 1 || !nonzero[0]) && (ch < 2 || !nonzero[1])) ==> (g_part_calls == 0 && g_class_calls == 0))
 #ifdef VERIF_ENFORCE_res2_inverse
-  REACH_ENSURES(g_part_calls >= 3)
+  REACH_ENSURES(g_part_calls >= 2)
   REACH_ENSURES(g_part_calls == 0 && g_class_calls == 1)
-  REACH_ENSURES(g_class_calls == 0 && ch == 2 && nonzero[1])
+  REACH_ENSURES(g_class_calls == 0 && ch >= 1 && nonzero[0])
 #endif
   ;
 #endif
